@@ -1363,6 +1363,10 @@ class Evaluator:
             return self.loop(s, st, mod, fi, depth, outs)
         if isinstance(s, ast.Try):
             return self.try_(s, st, mod, fi, depth, outs)
+        if isinstance(s, ast.With) and len(s.items) == 1:
+            handled = self._with_instance(s, st, mod, fi, depth, outs)
+            if handled is not None:
+                return handled
         if isinstance(s, ast.With):
             for item in s.items:
                 v = self.expr(item.context_expr, st, mod, fi, depth)
@@ -1654,6 +1658,55 @@ class Evaluator:
             tgens.append((ast.unparse(tgt), itt, ()))
         elt = self.expr(cur.value.args[0], sub, mod, fi, depth)
         return acc, Comp('list', elt, tuple(tgens))
+
+    def _with_instance(self, s: ast.With, st: _State, mod, fi, depth, outs) -> Optional[List[_State]]:
+        """`with obj:` over an instance (built in this function) of a package class with __exit__: the try statement that
+        __exit__ encodes.  Each way __exit__ has of returning True for an exception of class K is a handler `except K`
+        (its prints and stores included) after which execution goes on behind the block; where it returns False the
+        exception propagates."""
+        item = s.items[0]
+        probe = st.fork()
+        v = self.expr(item.context_expr, probe, mod, fi, depth)
+        if not isinstance(v, New):
+            return None
+        ci = self.m.classes.get(v.cls)
+        exit_fi = ci.resolve('__exit__') if ci is not None else None
+        if exit_fi is None or len(exit_fi.params()) != 4 or exit_fi.key in self._stack:
+            return None
+        pre = st.fork()
+        if item.optional_vars is not None:
+            enter = ci.resolve('__enter__')
+            ent = self.inline_call(enter, v, (), (), st, depth) if enter is not None else None
+            self.assign(item.optional_vars, ent if ent is not None else Opaque('with'), st, mod, fi, depth)
+        res = self.block(s.body, [st], mod, fi, depth, outs)
+        assigned = self._assigned_names(s.body)
+        exc = Sym('exc:with')
+        ps = exit_fi.params()
+        self._stack.append(exit_fi.key)
+        try:
+            couts = self.run(exit_fi, {ps[0]: v, ps[1]: Call(Ext('type'), (exc,)), ps[2]: exc, ps[3]: Opaque('traceback')}, depth + 1,
+                             base_env={k: val for k, val in pre.env.items() if k.startswith('@field:')})
+        finally:
+            self._stack.pop()
+        for o in couts:
+            if o.kind != 'return' or not (isinstance(o.value, Const) and o.value.value is True):
+                continue        # not swallowed: the exception goes on to the caller
+            gs = norm_guards(o.guards)
+            classes = [g.args[1] for g, pol in gs if pol and isinstance(g, Call) and isinstance(g.func, Ext) and g.func.name == 'isinstance' and len(g.args) == 2 and g.args[0] == exc]
+            if not classes:
+                continue
+            hs = pre.fork()
+            for n in assigned:
+                if n not in hs.env:
+                    hs.env[n] = Opaque(f'try:{n}')
+            hs.guards = hs.guards + ((Op('except', (classes[-1],)), True),) + tuple((g, pol) for g, pol in gs if not any(x == exc for x in walk(g)))
+            hs.effects = hs.effects + tuple(e for e in o.effects if e not in hs.effects)
+            hs.asserts = hs.asserts + tuple(a for a in o.asserts if a not in hs.asserts)
+            for k, val in (o.env or {}).items():
+                if k.startswith('@field:'):
+                    hs.env[k] = val
+            res.append(hs)
+        return res
 
     def try_(self, s: ast.Try, st: _State, mod, fi, depth, outs) -> List[_State]:
         pre = st.fork()
@@ -2326,6 +2379,38 @@ class Evaluator:
         return key
 
     # ---------------------------------------------------------------- calls
+    def _construct_plain(self, ci: ClassInfo, args: Tuple[Term, ...], kwargs: Tuple[Tuple[str, Term], ...], depth: int) -> Optional[Term]:
+        """An instance of a plain class whose __init__ does nothing but store attributes (`self.x = <value>`): a record
+        with those fields.  Any other __init__ (calls, conditions, inherited initialisers) stays an opaque constructor call."""
+        init = ci.methods.get('__init__')
+        if init is None or ci.external_bases or len([b for b in ci.mro() if b is not ci and b.methods.get('__init__')]) > 0 or depth > 6:
+            return None
+        body = [st_ for st_ in init.node.body if not (isinstance(st_, ast.Expr) and isinstance(st_.value, ast.Constant))]
+        if not body or not all(isinstance(st_, (ast.Assign, ast.AnnAssign)) and isinstance((st_.targets[0] if isinstance(st_, ast.Assign) else st_.target), ast.Attribute)
+                               and isinstance((st_.targets[0] if isinstance(st_, ast.Assign) else st_.target).value, ast.Name)
+                               and (st_.targets[0] if isinstance(st_, ast.Assign) else st_.target).value.id == 'self' for st_ in body):
+            return None
+        me = Sym('self', ci.name)
+        bound = self.bind_call(init, me, args, kwargs, depth)
+        if bound is None:
+            return None
+        if init.key in self._stack:
+            return None
+        self._stack.append(init.key)
+        try:
+            outs = self.run(init, bound, depth + 1)
+        finally:
+            self._stack.pop()
+        if len(outs) != 1 or outs[0].kind != 'fall' or outs[0].guards:
+            return None
+        fields: Dict[str, Term] = {}
+        for e in outs[0].effects:
+            if isinstance(e, Store) and isinstance(e.target, Attr) and e.target.base == me:
+                fields[e.target.name] = e.value
+            else:
+                return None
+        return New(ci.name, tuple(fields.items()))
+
     def construct(self, ci: ClassInfo, args: Tuple[Term, ...], kwargs: Tuple[Tuple[str, Term], ...]) -> Term:
         pos, kwo = ci.init_params()
         bound: Dict[str, Term] = {}
@@ -2421,6 +2506,11 @@ class Evaluator:
             if ci is not None and not star and (ci.is_record or any(c.is_record for c in ci.mro())):
                 self.resolved_calls += 1
                 return self.construct(ci, args, kwargs)
+            if ci is not None and not star and not ci.is_enum:
+                plain = self._construct_plain(ci, args, kwargs, depth)
+                if plain is not None:
+                    self.resolved_calls += 1
+                    return plain
             self.resolved_calls += 1
             return Call(func, args, kwargs)
         if isinstance(func, BoundMethod):
